@@ -36,7 +36,26 @@ type c16Case struct {
 	ExplicitOff bool   `json:"explicit_off"` // SetLogAuthData(false) called explicitly
 	TLS         bool   `json:"tls"`
 	WrongPass   bool   `json:"wrong_pass"`
-	Via         string `json:"via,omitempty"` // "" mail.Client | direct: smtp.Client with Auth as the first command (implicit EHLO inside Auth)
+	Via         string `json:"via,omitempty"` // "" mail.Client | direct: smtp.Client with Auth as the first command (implicit EHLO inside Auth) | custom: mail.Client with WithSMTPAuthCustom
+	// Advertise: what the server says about AUTH in its EHLO reply: "" = "AUTH <mech>" | none = no AUTH keyword | other = AUTH with
+	// other mechanisms only | helo = EHLO refused, HELO only. The server accepts the AUTH command in every case.
+	Advertise string `json:"advertise,omitempty"`
+}
+
+func c16Auth(c c16Case) smtp.Auth {
+	switch c.Mech {
+	case "PLAIN":
+		return smtp.PlainAuth("", c.User, c.Pass, netHost, true)
+	case "LOGIN":
+		return smtp.LoginAuth(c.User, c.Pass, netHost, true)
+	case "CRAM-MD5":
+		return smtp.CRAMMD5Auth(c.User, c.Pass)
+	case "XOAUTH2":
+		return smtp.XOAuth2Auth(c.User, c.Pass)
+	case "SCRAM-SHA-1":
+		return smtp.ScramSHA1Auth(c.User, c.Pass)
+	}
+	return smtp.ScramSHA256Auth(c.User, c.Pass)
 }
 
 type capLogger struct {
@@ -124,6 +143,14 @@ func runC16Case(r *ev.Run, c c16Case) {
 	farm := &refsmtp.Farm{NewConfig: func(int) *refsmtp.Config {
 		sc := &refsmtp.Config{AllowUTF8: true, Auth: a.handler()}
 		caps := []string{"8BITMIME", "AUTH " + c.Mech}
+		switch c.Advertise {
+		case "none":
+			caps = []string{"8BITMIME"}
+		case "other":
+			caps = []string{"8BITMIME", "AUTH GSSAPI NTLM"}
+		case "helo":
+			sc.RefuseEHLO = true
+		}
 		if c.TLS {
 			sc.TLS = gen.ServerTLS(tm.Good, 0, 0)
 			sc.Caps = func(_ int, on bool) []string {
@@ -159,6 +186,9 @@ func runC16Case(r *ev.Run, c c16Case) {
 	if c.OptIn {
 		opts = append(opts, mail.WithLogAuthData())
 	}
+	if c.Via == "custom" {
+		opts = append(opts, mail.WithSMTPAuthCustom(c16Auth(c)))
+	}
 	marker := fmt.Sprintf("marker%08x", mrand.Uint32())
 	if c.Via == "direct" {
 		// the smtp package used directly: Auth is the first command, so the EHLO is sent from inside Auth
@@ -178,21 +208,7 @@ func runC16Case(r *ev.Run, c c16Case) {
 		if c.OptIn {
 			sc.SetLogAuthData()
 		}
-		var a smtp.Auth
-		switch c.Mech {
-		case "PLAIN":
-			a = smtp.PlainAuth("", c.User, c.Pass, netHost, true)
-		case "LOGIN":
-			a = smtp.LoginAuth(c.User, c.Pass, netHost, true)
-		case "CRAM-MD5":
-			a = smtp.CRAMMD5Auth(c.User, c.Pass)
-		case "XOAUTH2":
-			a = smtp.XOAuth2Auth(c.User, c.Pass)
-		case "SCRAM-SHA-1":
-			a = smtp.ScramSHA1Auth(c.User, c.Pass)
-		default:
-			a = smtp.ScramSHA256Auth(c.User, c.Pass)
-		}
+		a := c16Auth(c)
 		if aerr := sc.Auth(a); aerr == nil {
 			if sc.Mail(marker+"@sender.example") == nil {
 				_ = sc.Rcpt(marker + "@rcpt.example")
@@ -309,7 +325,10 @@ func runC16Case(r *ev.Run, c c16Case) {
 		}
 	}
 	r.Seen("mech_x_fault", c.Mech+"|"+faultName(c)+fmt.Sprint(c.FaultStep))
-	r.Eval(fmt.Sprintf("%s|%s|%d|%s|%t|%t|%t|%s|%s", c.Mech, c.Fault, c.FaultStep, c.Logger, c.OptIn, c.TLS, c.WrongPass, c.Pass, c.Via), true)
+	r.Eval(fmt.Sprintf("%s|%s|%d|%s|%t|%t|%t|%s|%s|%s", c.Mech, c.Fault, c.FaultStep, c.Logger, c.OptIn, c.TLS, c.WrongPass, c.Pass, c.Via, c.Advertise), true)
+	if c.Advertise != "" && res.Ran {
+		r.Count("auth_exchanges_without_advertisement", 1)
+	}
 	if c.Via == "direct" {
 		r.Count("runs_via_smtp_client_directly", 1)
 	}
@@ -324,7 +343,7 @@ func faultName(c c16Case) string {
 
 func runC16(r *ev.Run, rep *ev.ReplayDoc) ev.Summary {
 	sum := ev.Summary{
-		Rule: "all mechanisms (PLAIN, LOGIN, CRAM-MD5, XOAUTH2, SCRAM-SHA-1/-256, -PLUS over TLS) x random high-entropy credentials (also with '%', blanks, non-ASCII, base64 specials) x server scripts {success, wrong password, 535 / 454 / malformed (non-base64) challenge / unexpected extra challenge / disconnect at every step of the exchange} x {capturing custom logger, log.Stdlog, log.JSONlog} x {default, SetLogAuthData(false)}, debug logging on; if the connection survives a message with marker addresses is sent. A control group with WithLogAuthData shows that the monitor sees secrets when they are logged. distinct by case",
+		Rule: "all mechanisms (PLAIN, LOGIN, CRAM-MD5, XOAUTH2, SCRAM-SHA-1/-256, -PLUS over TLS) x random high-entropy credentials (also with '%', blanks, non-ASCII, base64 specials) x server scripts {success, wrong password, 535 / 454 / malformed (non-base64) challenge / unexpected extra challenge / disconnect at every step of the exchange} x {capturing custom logger, log.Stdlog, log.JSONlog} x {default, SetLogAuthData(false)} x {mail.Client with a built-in auth type, mail.Client with WithSMTPAuthCustom, smtp.Client.Auth as first command} x server announcing {the mechanism, no AUTH keyword, other mechanisms only, HELO only} (the server accepts the command regardless), debug logging on; if the connection survives a message with marker addresses is sent. A control group with WithLogAuthData shows that the monitor sees secrets when they are logged. distinct by case",
 		Assumptions: []string{
 			"the server never echoes credentials in its reply texts (an echoing server is outside the quantifier)",
 			"forms searched: raw, base64 (std/url/raw), hex, Go-quoted, every client line of the AUTH exchange whose base64 decoding contains the secret, and that decoded text",
@@ -363,6 +382,15 @@ func runC16(r *ev.Run, rep *ev.ReplayDoc) ev.Summary {
 						c.Via = "direct"
 					}
 					cases = append(cases, c)
+					if !c.TLS && !isPlus(mech) && (f == "" || st == 0) {
+						// the same against servers that do not announce the mechanism (or AUTH at all) but accept the command
+						for ai, adv := range []string{"none", "other", "helo"} {
+							c2 := c
+							c2.Advertise = adv
+							c2.Via = []string{"direct", "custom"}[(n+ai)%2]
+							cases = append(cases, c2)
+						}
+					}
 				}
 			}
 		}
@@ -384,6 +412,10 @@ func runC16(r *ev.Run, rep *ev.ReplayDoc) ev.Summary {
 		}
 		if !c.TLS && rng.Intn(4) == 0 {
 			c.Via = "direct"
+		}
+		if !c.TLS && rng.Intn(5) == 0 {
+			c.Via = gen.Pick(rng, []string{"direct", "custom"})
+			c.Advertise = gen.Pick(rng, []string{"", "none", "other", "helo"})
 		}
 		cases = append(cases, c)
 	}
